@@ -14,21 +14,22 @@ from ..loader import load
 LEVEL = "proof"
 MANIFEST = {
     "category": "proof",
-    "technique": "contract-based deductive verification: symbolic execution of the real stop() methods, per-path VCs vs. a spec transition, z3; induction over the loss history",
-    "text": "One VC per path of the real TrainLoss.stop / ValLoss.stop / EpochStop.stop (all numbers symbolic, loss representation enumerated) against the spec transition of the statement, plus the constructor VC: a Hoare-style induction that covers every loss history of every length, which no finite set of test histories does.",
-    "note": "reals not IEEE floats; float() of numpy/jax scalars assumed exact; CPython + proxies + z3 trusted; print/log inert; the epoch loop of train() is covered only by a bounded unrolling / native stand-in",
+    "technique": "contract-based deductive verification: symbolic execution of the real stop() methods, per-path VCs vs. a spec transition, z3; induction over the loss history; loop contracts (invariant: base / step / exit through the real loop bodies, locals havoc'ed into the invariant) for the epoch loop and the batch loop of the real ml.train",
+    "text": "One VC per path of the real TrainLoss.stop / ValLoss.stop / EpochStop.stop (all numbers symbolic, loss representation enumerated) against the spec transition of the statement, plus the constructor VC: a Hoare-style induction that covers every loss history of every length, which no finite set of test histories does. The training loop's side of the protocol (stop() is consulted before every epoch with the model after the epoch's last step, the number of completed epochs, the mean of that epoch's batch losses as a 0-d array and the validation loss of that model or None; None / None before the first epoch; every step starts from the previous step's model with the j-th input batch paired with the j-th target batch; train returns stop_condition.best_model) is a loop invariant proved through the real loop bodies for a symbolic number of epochs and a symbolic number of batches.",
+    "note": "reals not IEEE floats; float() of numpy/jax scalars assumed exact; CPython + proxies + z3 trusted; print/log inert; in the train-loop contract get_batches / train_step / map_loss_in_batches / random.split are replaced by ghost stubs (their own contracts are C17 / C09), the loop-carried locals are overwritten through CPython's frame API (lib.frame_havoc); the unrolled runs for 0..3 epochs are kept as additional bounded obligations",
 }
 FUNCTIONS = ["ginjax.ml.stopping_conditions.StopCondition.__init__", "ginjax.ml.stopping_conditions.EpochStop.__init__",
              "ginjax.ml.stopping_conditions.EpochStop.stop", "ginjax.ml.stopping_conditions.TrainLoss.__init__",
              "ginjax.ml.stopping_conditions.TrainLoss.stop", "ginjax.ml.stopping_conditions.ValLoss.__init__",
-             "ginjax.ml.stopping_conditions.ValLoss.stop", "ginjax.ml.stopping_conditions.StopCondition.log_status (inlined, print inert)", "ginjax.ml.training.train (epoch loop, unrolled 0..3 epochs: bounded)"]
+             "ginjax.ml.stopping_conditions.ValLoss.stop", "ginjax.ml.stopping_conditions.StopCondition.log_status (inlined, print inert)", "ginjax.ml.training.train (epoch loop + batch loop: loop invariants, base / step / exit through the real bodies; additionally unrolled 0..3 epochs)"]
 TRUSTED = ["CPython executes the concrete part of the real source; proxies SInt/SReal/SBool (gvc/sym.py)",
            "z3 decides the linear real/integer VCs", "float(x) of a numpy scalar / 0-d jax array is exact (assumed)",
            "Hoare-style induction over the history (meta-argument): constructor establishes Inv, every stop() preserves it",
-           "spec: gvc/specs/stop_spec.py transcribes the statement"]
+           "spec: gvc/specs/stop_spec.py transcribes the statement",
+           "loop-contract meta-argument (base, step from an arbitrary invariant state, exit from an arbitrary invariant state) and CPython's PyFrame_LocalsToFast used to put the real function's locals into the invariant state"]
 ASSUMPTIONS = ["losses are real numbers (no NaN, no IEEE rounding): comparisons are over the reals",
                "min_delta >= 0, patience >= 0 (pre-condition)", "print / log_status are inert",
-               "the epoch loop of train() is verified by unrolling it for 0..3 epochs (bounded in the number of epochs; get_batches / train_step / map_loss_in_batches replaced by stubs returning opaque values)"]
+               "train(): get_batches / train_step / map_loss_in_batches / random.split are ghost stubs returning opaque tokens indexed by (epoch, step); the loop invariant names the locals model, opt_state, aux_data, epoch, epoch_loss, epoch_val_loss, val_loss, rand_key, epoch_time; every other name assigned in the loops is poisoned after the havoc (a read-before-write makes the obligation undecided, never proved); save_model=None, is_wandb=False"]
 EXPLANATION = ("Deductive: every path of the real TrainLoss.stop / ValLoss.stop / EpochStop.stop is executed symbolically "
                "(patience, epochs, counters symbolic Int; losses, min_delta symbolic Real; +inf initial best) and each "
                "post-condition clause is discharged by z3 against the spec transition; with the constructor VC this is an "
@@ -66,6 +67,8 @@ def jobs(tier):
     for k in [0, 1, 2, 3]:
         for v in [False, True]:
             out.append(("gvc.props.c19", "ob_train_loop", {"k": k, "validation": v}))
+    for v in [False, True]:
+        out.append(("gvc.props.c19", "ob_train_induction", {"validation": v}))
     out.append(("gvc.props.c19", "ob_train_vallos_requires_validation", {}))
     return out
 
@@ -389,6 +392,281 @@ def ob_train_loop(k, validation):
 
     o = guard(name + "/ensures:stop-condition-protocol", "ensures", body, structure)
     o["replay"] = dict(cls="train", k=k, validation=validation)
+    return [o]
+
+
+# ------------------------------------------------------------------------------------------------------------------
+# the epoch loop of ml.train by INDUCTION through the real loop bodies (all numbers of epochs, all numbers of batches)
+
+class Tok:
+    """ghost value indexed by symbolic integers, e.g. Tok('model', e, j) = the model after j steps of the epoch that follows
+    e completed epochs.  Equality of tokens is decided by z3 on the indices under the current path."""
+
+    def __init__(self, kind, *idx):
+        self.kind, self.idx = kind, tuple(idx)
+
+    def same(self, other):
+        if not isinstance(other, Tok) or other.kind != self.kind or len(other.idx) != len(self.idx):
+            return False
+        return all(valid(zi(a) == zi(b)) for a, b in zip(self.idx, other.idx))
+
+    def __repr__(self):
+        return f"{self.kind}{list(self.idx)}"
+
+
+def ob_train_induction(validation):
+    """{Inv(e)} one pass through the real body of `while not stop_condition.stop(...)` {Inv(e+1)} for a SYMBOLIC e >= 1, the
+    base case through the real initial state, the exit on an arbitrary Inv state, and inside each pass the batch loop
+    `for X_batch, Y_batch in zip(X_batches, Y_batches)` by its own induction over a symbolic number of batches nb >= 1.
+    The unmodified function runs under CPython; its locals are put into the invariant by lib.frame_havoc (keyed by the AST of
+    the two loops: every name the loops assign is either constrained by the invariant or poisoned)."""
+    import sys as _s
+    from .. import arr
+    T = load()["ginjax.ml.training"]
+    sc = _sc()
+    name = f"C19/train/induction,validation={validation}"
+    structure = dict(validation=validation, epochs="symbolic (induction)", batches_per_epoch="symbolic nb >= 1 (induction)")
+    OUTER = {"model", "opt_state", "aux_data", "epoch", "epoch_loss", "epoch_val_loss", "val_loss", "rand_key", "epoch_time"}
+    INNER = {"model", "opt_state", "aux_data", "epoch_loss"}
+
+    def body():
+        names_o, header_o, nouter = lib.loop_names(T.train, 0)
+        names_i, header_i, _ = lib.loop_names(T.train, 0, nested=True)
+        if nouter != 1 or "stop_condition" not in header_o or "stop" not in header_o:
+            raise sym.OutOfReach("train no longer has the single loop `while not stop_condition.stop(...)` the loop contract is keyed to")
+        if "zip" not in header_i or "X_batches" not in header_i or "Y_batches" not in header_i:
+            raise sym.OutOfReach("the batch loop is no longer `for .. in zip(X_batches, Y_batches)`")
+        if not OUTER <= names_o or not INNER <= names_i:
+            raise sym.OutOfReach(f"loop contract variables are not assigned by the loops: {sorted(OUTER - names_o)} {sorted(INNER - names_i)}")
+        verdicts = []
+        for out in sym.run_paths(lambda: run_once(names_o, names_i), []):
+            sym.CTX.path = list(out["path"])
+            if "raised" in out:
+                verdicts.append(("refuted", f"train() raises {out['raised']!r} on a feasible path", _model(out["path"])))
+                continue
+            verdicts.append(out["result"])
+        for v in verdicts:
+            if v[0] == "refuted":
+                return v
+        for v in verdicts:
+            if v[0] != "proved":
+                return v
+        return "proved", f"{len(verdicts)} path(s): " + verdicts[0][1], None
+
+    def run_once(names_o, names_i):
+        L = z3.Function("batch_loss", z3.IntSort(), z3.IntSort(), z3.RealSort())       # loss of step j of epoch e
+        S = z3.Function("partial_sum", z3.IntSort(), z3.IntSort(), z3.RealSort())      # ghost: sum_{j' < j} L(e, j')
+        TL = z3.Function("train_loss", z3.IntSort(), z3.RealSort())                    # what stop() saw after e epochs
+        VL = z3.Function("val_loss", z3.IntSort(), z3.RealSort())
+        nb = z3.Int("nb")
+        sym.CTX.path += [nb >= 1]
+        fails = []
+        st = {"e": 0, "calls": 0, "steps": 0, "val": [], "splits": [], "epoch_tag": None, "batches": None}
+
+        def zero_d(t):
+            return arr.SArray([], lambda idx: t, "real")
+
+        def is0d(x, t, what):
+            if not (isinstance(x, arr.SArray) and x.ndim == 0):
+                fails.append(("refuted", f"{what}: expected a 0-d array, got {type(x).__name__}", None))
+                return
+            r, m = sym.refute_or_prove(arr.t_eq(x.elem(()), t))
+            if r != "proved":
+                fails.append((r, f"{what}: value differs from the specification", m))
+
+        class Batches:
+            """ghost list of the epoch's batches (symbolic length nb).  The X list drives the inner induction."""
+
+            def __init__(self, kind, e, drive):
+                self.kind, self.e, self.drive, self.i = kind, e, drive, None
+
+            def gvc_slen(self):
+                return SInt(nb)
+
+            def __len__(self):
+                raise sym.OutOfReach("len() of a symbolic batch list outside slen")
+
+            def __iter__(self):
+                e = self.e
+                if not self.drive:
+                    yield Tok(self.kind, e, 0)
+                    yield Tok(self.kind, e, st["batches"][0].i)
+                    return
+                fr = _s._getframe(1)
+                if fr.f_code is not T.train.__code__:
+                    raise sym.OutOfReach("the batch list is not iterated directly by train()")
+                loc = fr.f_locals          # inner base: the state before the first step
+                if not (isinstance(loc["model"], Tok) and loc["model"].same(Tok("model", e, 0))):
+                    fails.append(("refuted", f"the first step of an epoch does not start from the model stop() was consulted with: {loc['model']!r}", None))
+                if not (loc["epoch_loss"] == 0 and not isinstance(loc["epoch_loss"], (arr.SArray, bool))):
+                    fails.append(("refuted", f"epoch_loss is not reset to 0 at the start of the epoch: {loc['epoch_loss']!r}", None))
+                yield Tok(self.kind, e, 0)
+                self.check(_s._getframe(1), 1, "batch loop, base")
+                i = z3.Int(sym.fresh_name("step"))
+                sym.CTX.path += [i >= 1, i < nb]
+                self.i = i
+                self.havoc(_s._getframe(1), i)
+                yield Tok(self.kind, e, i)
+                self.check(_s._getframe(1), i + 1, "batch loop, step")
+                self.havoc(_s._getframe(1), nb)
+
+            def havoc(self, fr, j):
+                e = self.e
+                extra = {n_: lib.Poison(n_) for n_ in names_i - INNER}
+                lib.frame_havoc(fr, model=Tok("model", e, j), opt_state=Tok("opt", e, j), aux_data=Tok("aux", e, j),
+                                epoch_loss=zero_d(S(zi(e), zi(j))), **extra)
+                st["chain"] = j
+
+            def check(self, fr, j, what):
+                e = self.e
+                loc = fr.f_locals
+                for nm, kind in [("model", "model"), ("opt_state", "opt"), ("aux_data", "aux")]:
+                    if not (isinstance(loc[nm], Tok) and loc[nm].same(Tok(kind, e, j))):
+                        fails.append(("refuted", f"{what}: `{nm}` is {loc[nm]!r}, the result of the step just taken is {Tok(kind, e, j)!r}", None))
+                # ghost definition of the running sum: S(e, j) = S(e, j-1) + L(e, j-1), S(e, 0) = 0
+                prev = S(zi(e), zi(j) - 1) if not (isinstance(j, int) and j == 1) else z3.RealVal(0)
+                is0d(loc["epoch_loss"], prev + L(zi(e), zi(j) - 1), f"{what}: epoch_loss is not the running sum of the batch losses")
+
+        def train_step(map_and_loss, model, optim, opt_state, x, y, aux):
+            e = st["e"]
+            j = st["chain"]
+            ok = (map_and_loss == "map_and_loss" and isinstance(model, Tok) and model.same(Tok("model", e, j))
+                  and isinstance(opt_state, Tok) and opt_state.same(Tok("opt", e, j)) and isinstance(aux, Tok) and aux.same(Tok("aux", e, j))
+                  and isinstance(optim, Opt))
+            if not ok:
+                fails.append(("refuted", f"train_step #{j} of the epoch does not receive the model / optimiser state / aux data of the previous step: {model!r}, {opt_state!r}, {aux!r}", None))
+            if not (isinstance(x, Tok) and x.same(Tok("xb", e, j)) and isinstance(y, Tok) and y.same(Tok("yb", e, j))):
+                fails.append(("refuted", f"train_step #{j} does not receive the j-th input batch together with the j-th target batch: {x!r}, {y!r}", None))
+            st["steps"] += 1
+            return Tok("model", e, zi(j) + 1), Tok("opt", e, zi(j) + 1), zero_d(L(zi(e), zi(j))), Tok("aux", e, zi(j) + 1)
+
+        def get_batches(mis, batch_size, key, devices=None):
+            e = st["e"]
+            if not (isinstance(mis, tuple) and len(mis) == 2 and mis[0] == "X" and mis[1] == "Y" and batch_size == 4 and devices == ["dev"]):
+                fails.append(("refuted", f"get_batches is not called with ((X, Y), batch_size, key, devices): {mis!r}, {batch_size!r}, {devices!r}", None))
+            if not st["splits"] or key is not st["splits"][-1][2]:
+                fails.append(("refuted", "get_batches does not receive the sub-key split off for this epoch", None))
+            st["chain"] = 0
+            st["batches"] = [Batches("xb", e, True), Batches("yb", e, False)]
+            return st["batches"]
+
+        def map_loss_in_batches(map_and_loss, model, x, y, batch_size, key, devices=None, aux_data=None):
+            e = st["e"]
+            ok = (isinstance(model, Tok) and model.same(Tok("model", e, nb)) and x == "VX" and y == "VY" and batch_size == 4
+                  and isinstance(aux_data, Tok) and aux_data.same(Tok("aux", e, nb)))
+            if not ok:
+                fails.append(("refuted", f"the validation loss is not computed for the model after this epoch's last step on the validation data: {model!r}, {x!r}, {y!r}", None))
+            st["val"].append(e)
+            return zero_d(VL(zi(e) + 1))
+
+        class Rnd:
+            @staticmethod
+            def split(key, num=2):
+                k = (key, ("key", sym.fresh_name("k0")), ("key", sym.fresh_name("k1")))
+                st["splits"].append(k)
+                return k[1], k[2]
+
+        class Opt:
+            def init(self, p):
+                return Tok("opt", 0, 0)
+
+        def outer_inv(e, start):
+            """locals of train() when stop() is consulted after e >= 1 completed epochs.  The model then is the result of the
+            last step, which is the start of the next epoch: Tok('model', e, 0) is DEFINED as Tok('model', e-1, nb)."""
+            d = dict(model=Tok("model", e, 0), opt_state=Tok("opt", e, 0), aux_data=Tok("aux", e, 0), epoch=SInt(zi(e)) if arr.is_z3(zi(e)) else e,
+                     epoch_loss=zero_d(TL(zi(e))), epoch_val_loss=zero_d(VL(zi(e))) if validation else None,
+                     val_loss=zero_d(VL(zi(e))) if validation else None, rand_key=("key", sym.fresh_name("rk")), epoch_time=0.125)
+            d.update({n_: lib.Poison(n_) for n_ in names_o - OUTER})
+            return d
+
+        def check_outer(args, fr, e_prev, what):
+            """after a pass that started from Inv(e_prev): stop() must see Inv(e_prev + 1)"""
+            model, ep, tl, vl, tm = args
+            if not (isinstance(model, Tok) and model.same(Tok("model", e_prev, nb))):
+                fails.append(("refuted", f"{what}: stop() is consulted with {model!r}, the model after the epoch's last step is {Tok('model', e_prev, 'nb')!r}", None))
+            r, m = sym.refute_or_prove(zi(ep) == zi(e_prev) + 1) if not isinstance(ep, bool) else ("refuted", None)
+            if r != "proved":
+                fails.append((r, f"{what}: current_epoch = {ep!r} is not the number of completed epochs", m))
+            is0d(tl, S(zi(e_prev), nb) / z3.ToReal(nb), f"{what}: train loss passed to stop()")
+            if validation:
+                if not st["val"] or st["val"][-1] is not e_prev:
+                    fails.append(("refuted", f"{what}: no validation loss computed in this epoch", None))
+                is0d(vl, VL(zi(e_prev) + 1), f"{what}: validation loss passed to stop()")
+            elif vl is not None:
+                fails.append(("refuted", f"{what}: a validation loss without validation data", None))
+            loc = fr.f_locals
+            if not (isinstance(loc["opt_state"], Tok) and loc["opt_state"].same(Tok("opt", e_prev, nb))
+                    and isinstance(loc["aux_data"], Tok) and loc["aux_data"].same(Tok("aux", e_prev, nb))):
+                fails.append(("refuted", f"{what}: optimiser state / aux data are not those of the last step", None))
+            if not st["splits"] or loc["rand_key"] is not st["splits"][-1][1]:
+                fails.append(("refuted", f"{what}: rand_key is not advanced by the split", None))
+
+        class Spy(sc.StopCondition):
+            def stop(self, model, current_epoch, train_loss, val_loss, epoch_time):
+                fr = _s._getframe(1)
+                if fr.f_code is not T.train.__code__:
+                    raise sym.OutOfReach("stop() is not called directly by train()")
+                st["calls"] += 1
+                c = st["calls"]
+                if c == 1:        # base: the real initial state
+                    if not (model == "model0" and current_epoch == 0 and not isinstance(current_epoch, bool) and train_loss is None and val_loss is None):
+                        fails.append(("refuted", f"before the first epoch stop() must see (model0, 0, None, None), got ({model!r}, {current_epoch!r}, {train_loss!r}, {val_loss!r})", None))
+                    if self.best_model != "model0":
+                        fails.append(("refuted", "best_model is not initialised with the model passed to train()", None))
+                    # name the real initial state with the ghost tokens of epoch 0
+                    lib.frame_havoc(fr, model=Tok("model", 0, 0), opt_state=Tok("opt", 0, 0), aux_data=Tok("aux", 0, 0))
+                    st["e"] = 0
+                    return False
+                if c == 2:        # after the pass from the initial state: Inv(1); then an arbitrary e >= 1
+                    check_outer((model, current_epoch, train_loss, val_loss, epoch_time), fr, 0, "first epoch")
+                    e = z3.Int("e")
+                    sym.CTX.path += [e >= 1]
+                    st["e"] = e
+                    lib.frame_havoc(fr, **outer_inv(e, True))
+                    return False
+                if c == 3:        # inductive step; then exit from an arbitrary Inv state
+                    check_outer((model, current_epoch, train_loss, val_loss, epoch_time), fr, st["e"], "inductive step")
+                    e2 = z3.Int("e_exit")
+                    sym.CTX.path += [e2 >= 1]
+                    st["e"] = e2
+                    lib.frame_havoc(fr, **outer_inv(e2, False))
+                    self.best_model = "BEST"
+                    return True
+                raise sym.OutOfReach("stop() consulted after it returned True")
+
+        eqx = _s.modules["equinox"]
+        saved = {n_: T.__dict__[n_] for n_ in ["get_batches", "train_step", "map_loss_in_batches", "random"]}
+        saved_filter = eqx.__dict__.get("filter")
+        T.__dict__.update(get_batches=get_batches, train_step=train_step, map_loss_in_batches=map_loss_in_batches, random=Rnd)
+        eqx.filter = lambda m, f: m
+        try:
+            spy = Spy()
+            res = T.train("X", "Y", "map_and_loss", "model0", ("key", 0), spy, 4, Opt(),
+                          "VX" if validation else None, "VY" if validation else None, None, ["dev"], "AUX0")
+        finally:
+            T.__dict__.update(saved)
+            eqx.filter = saved_filter
+        if st["calls"] != 3:
+            return "undecided", f"the loop driver saw {st['calls']} stop() calls", None
+        e2 = st["e"]
+        if res[0] != "BEST":
+            fails.append(("refuted", f"train returns {res[0]!r}, not stop_condition.best_model", None))
+        if not (isinstance(res[1], Tok) and res[1].same(Tok("aux", e2, 0))):
+            fails.append(("refuted", f"train returns aux data {res[1]!r}, not the current one", None))
+        is0d(res[2], TL(e2), "returned train loss")
+        if validation:
+            is0d(res[3], VL(e2), "returned validation loss")
+        elif res[3] is not None:
+            fails.append(("refuted", "a validation loss is returned without validation data", None))
+        for f in fails:
+            if f[0] == "refuted":
+                return "refuted", f[1], f[2]
+        for f in fails:
+            return "undecided", f[1], f[2]
+        return "proved", f"base + inductive step + exit of the epoch loop; base + step + exit of the batch loop (twice); {st['steps']} symbolic steps", None
+
+    o = guard(name + "/invariant:stop-condition-protocol", "invariant", body, structure)
+    o["replay"] = dict(cls="train", protocol=True, k=3, validation=validation, model=o.get("model"))
     return [o]
 
 
